@@ -237,6 +237,22 @@ func cmdCheck(args []string) int {
 			continue
 		}
 		fc := v.specs.Funcs[k]
+		if fc.Asset != nil {
+			for _, r := range v.VerifyAsset(fc) {
+				results = append(results, r)
+				for _, u := range r.Undecided {
+					undecided = append(undecided, fmt.Sprintf("func=%s reason=%s", r.Key, u))
+				}
+				for _, o := range r.Obls {
+					if o.Props != nil && !hasProp(o.Props, prop) {
+						continue
+					}
+					obls = append(obls, o)
+					allQ = append(allQ, o.Queries...)
+				}
+			}
+			continue
+		}
 		f := v.fnByKey[k]
 		if f == nil || f.Blocks == nil {
 			undecided = append(undecided, fmt.Sprintf("func=%s reason=contract key does not resolve to a function with a body", k))
@@ -574,6 +590,21 @@ func cmdCheck(args []string) int {
 	assum = append(assum, "A-SEQ: slices, arrays and strings are mathematical sequences (value semantics); element stores are accepted only into sequences allocated in the same function")
 	assum = append(assum, "A-MEM: 0 <= len(s) <= 2^47 for every sequence")
 	assum = append(assum, "A-SEQUENTIAL: every function is verified as a single goroutine; sync.Mutex operations are no-ops; blocking is not modelled")
+	nflow, nasset := 0, 0
+	for _, o := range obls {
+		switch o.Kind {
+		case "flow", "readers":
+			nflow++
+		case "asset":
+			nasset++
+		}
+	}
+	if nflow > 0 {
+		assum = append(assum, fmt.Sprintf("A-FLOW: %d information-flow obligations (kinds flow/readers) are decided by a syntactic taint propagation over the SSA of the function, not by the solver (back end `syntactic`): explicit flows only - values derived by conversion, slicing, concatenation, boxing, phi, element access, local stores; comparisons, lengths and control dependence are not tracked; a listed sink consumes the value and the callee's own clause answers for it", nflow))
+	}
+	if nasset > 0 {
+		assum = append(assum, fmt.Sprintf("A-YAML: %d data obligations (kind asset) are about embedded files parsed by govc with yaml.v3 into ground facts; yaml.v3 is assumed to decode that node tree into the Go structures according to their struct tags", nasset))
+	}
 	for _, ax := range v.axiomTerms {
 		assum = append(assum, "axiom "+ax.name+": "+ax.src)
 	}
@@ -685,6 +716,8 @@ func writeReplay(v *Verifier, path, prop string, o *Obl, q *Query, where string)
 	found := false
 	if o.Kind == "flow" || o.Kind == "readers" {
 		rp["note"] = "information-flow obligation decided syntactically on the SSA of the function; the clause text names the offending use; no input is involved"
+	} else if o.Kind == "asset" {
+		rp["note"] = "data obligation: the embedded file named in `where`, described to the solver as ground facts, does not satisfy the clause; the failing input is the file itself (load it with platform.NewPlatform to observe the effect)"
 	} else {
 		found = tryReplay(v, o, q, rp)
 	}
